@@ -481,7 +481,28 @@ class World:
         return int(r[0][0] or 0) if r else 0
 
     # -- workflow submission -----------------------------------------------------------------------
+    NOISE = True  # every world also holds a finished execution of another definition that re-uses the same ref_ids
+
+    def _store_noise(self, wf: Workflow) -> None:
+        """Another, already finished execution in the same database whose stages have the same
+        ref_ids as the workload's but different dependencies (a pipeline definition edited between
+        runs).  Nothing of it may leak into the execution under test."""
+        refs = [s.ref_id for s in wf.stages]
+        real = {s.ref_id: set(s.requisite_stage_ref_ids) for s in wf.stages}
+        stages = []
+        for i, r in enumerate(refs):
+            deps = {q for q in refs[:i] if q not in real[r]}
+            t = TaskExecution.create(name="t1", implementing_class="vtask", stage_start=True, stage_end=True)
+            t.status = WorkflowStatus.SUCCEEDED
+            stages.append(StageExecution(ref_id=r, type="vtask", name=r, status=WorkflowStatus.SUCCEEDED, context={"noise": True}, outputs={"o_" + r: -1, "k": "noise", "noise_" + r: 1},
+                                         tasks=[t], requisite_stage_ref_ids=deps))
+        noise = Workflow(application="vf-noise", name="noise", stages=stages, status=WorkflowStatus.SUCCEEDED)
+        self.store.store(noise)
+        self.noise_id = noise.id
+
     def submit(self, wf: Workflow) -> Workflow:
+        if self.NOISE:
+            self._store_noise(wf)
         self.workflow_id = wf.id
         self.refs = {s.ref_id: s.id for s in wf.stages}
         self.store.store(wf)
